@@ -84,6 +84,16 @@ CLAIMED = {
             'by its contract (C07/C08), value layer by C03; the end-to-end units bound the number of parts to 3 and the per-part '
             'index tables to 2 entries (sizes, indices and ids symbolic)',
             'contract-based deductive verification: AST->z3 VCs of the real source over ghost state', 'DESIGN 2 C09'),
+    'C08': ('proof',
+            'get_flight is proved from an arbitrary indexable store state with a symbolic number of rows: invariant "index not '
+            'stale => table = (id,row) pairs of all rows sorted by id" (quantified; the instances used are added explicitly), '
+            'stale state handled through _reindex by contract; postcondition: the trajectory added with that id, or None iff '
+            'the id was never added. _reindex is proved to build exactly that table (0..3 rows, symbolic ids), add to keep '
+            'stores fully identified or not at all and to raise the stale flag, _open to decide indexability from the file, '
+            'the in-memory case and the merged index (offsets by earlier parts) have their own units.',
+            'bisect_left / sorted by assumed contracts; netCDF and cache models and the value layer as in C07; _reindex and the '
+            'merged index units bound the table sizes (3 rows / 2 entries per part)',
+            'contract-based deductive verification: AST->z3 VCs of the real source, representation invariant', 'DESIGN 2 C08'),
 }
 REASONS_TODO = 'check not built yet (work in progress; see DESIGN.md section 2)'
 
